@@ -180,10 +180,11 @@ static void pf_write_leading_zeroes(
         const unsigned diff =
             fmt.precision.width <= written_by_utoa ? 0 :
             fmt.precision.width - written_by_utoa;
+        const size_t cap_left = pf_capacity_left(*out);
         memmove(
             out->data + out->length + diff,
             out->data + out->length,
-            pf_limit(*out, written_by_utoa));
+            diff >= cap_left ? 0 : pf_min(written_by_utoa, cap_left - diff));
         memset(out->data + out->length, '0', pf_limit(*out, diff));
         out->length += written_by_utoa + diff;
     }
